@@ -484,6 +484,8 @@ def gen_plain_case(rng):
                             spec['flags'] = dict(spec.get('flags') or {}, **{f: True for f in ('success', 'failure', 'notify') if rng.random() < 0.5})
                         if rng.random() < 0.12:
                             spec['cancel'] = True
+                        if rng.random() < 0.15:
+                            spec['prio'] = rng.choice([-1, 1, 2.5, -0.5])     # fired with a priority of its own (dispatched earlier / later in its pass)
                         body.append(['fire', spec])
                     elif r < 0.68:
                         body.append(['stop'])
